@@ -1,11 +1,17 @@
-\* the tree as it is: a correct node persists a block it cannot apply and asks to be killed
+\* the tree before ef885bb: a correct node persists a block it cannot apply and asks to be killed
 SPECIFICATION Spec
 CONSTANTS
   Guard = "AsCoded"
-  Classes <- UpTo2
+  Cmp = "hash"
+  Setups <- SetsOne
+  Blocks <- BlocksUpTo2
+  Seconds <- NoSeconds
   MaxRound = 1
   MaxRestarts = 2
   Sched = "fixed"
+  ByzVotes = "support"
+  Loss = "none"
+  Serve = "prefix"
 INVARIANTS TypeOK NoWedge
 VIEW View
 CHECK_DEADLOCK FALSE
